@@ -39,6 +39,7 @@ import (
 	"strconv"
 	"strings"
 	"sync"
+	"sync/atomic"
 
 	"verif/corpus"
 	"verif/mc"
@@ -72,6 +73,7 @@ var c17FontFiles = []string{
 	"ot/toys/CFFTest.otf",              // CFF
 	"ot/morx/Ten.ttf",                  // AAT morx
 	"ot/toys/CBLC2.ttf",                // colour bitmaps
+	"ot/collections/Gacha_9.dfont",     // bloc/bdat bitmaps, index subtables of formats 1 and 2 (3 KiB)
 	"ot/toys/gpos/GPOSCursive.ttf",     // GSUB/GPOS/GDEF
 	"ot/common/SourceSans-VF-HVAR.ttf", // larger variable font with HVAR and layout tables
 }
@@ -185,7 +187,7 @@ func outlineSig(d font.GlyphData) string {
 	case font.GlyphOutline:
 		return fmt.Sprintf("outline%d:%x", len(d.Segments), mc.HashStr(fmt.Sprint(d.Segments)))
 	case font.GlyphBitmap:
-		return fmt.Sprintf("bitmap%d:%dx%d", len(d.Data), d.Width, d.Height)
+		return fmt.Sprintf("bitmap%d:%dx%d:%x", len(d.Data), d.Width, d.Height, mc.HashStr(string(d.Data)))
 	case font.GlyphSVG:
 		return fmt.Sprintf("svg%d", len(d.Source))
 	}
@@ -222,7 +224,7 @@ func c17op(cf *c17font, th *c17thread, op int) string {
 		sort.Slice(pairs, func(i, j int) bool { return pairs[i] < pairs[j] })
 		fmt.Fprint(&b, len(pairs), mc.HashStr(fmt.Sprint(pairs)))
 	case 2:
-		for _, g := range []font.GID{1, 2, 3, 0xFFFF} {
+		for _, g := range []font.GID{1, 2, 3, 4, 0xFFFF} {
 			e, ok := face.GlyphExtents(g)
 			x, y, ok2 := face.GlyphVOrigin(g)
 			fmt.Fprint(&b, face.HorizontalAdvance(g), face.VerticalAdvance(g), e, ok, x, y, ok2, outlineSig(face.GlyphData(g)), ft.GlyphName(g), ";")
@@ -670,6 +672,8 @@ func c17race(tier string, r *mc.Reporter) {
 			}
 		}
 		r.Violation("C17:data-race:"+strings.Join(frames, "|"), &c17case{What: "race"}, fmt.Sprintf("%d data race reports by the race detector in the free-running pass; first report:\n%s", n, mc.Trunc(s[strings.Index(s, "WARNING: DATA RACE"):], 2500)))
+	} else if strings.Contains(s, "WRONG BITMAP ANSWER") {
+		r.Violation("C17:race-pass:wrong-bitmap-answer", &c17case{What: "race"}, "a goroutine sharing a bitmap font got another answer than alone: "+mc.Trunc(s[strings.Index(s, "WRONG BITMAP ANSWER"):], 600))
 	} else if err != nil {
 		r.Violation("C17:race-pass-failed", &c17case{What: "race"}, fmt.Sprintf("the free-running pass ended with %v: %s", err, mc.Trunc(s, 1500)))
 	}
@@ -708,11 +712,11 @@ var _ = filepath.Join
 func init() {
 	Register(&mc.Check{
 		ID: "C17", Level: "model_checking",
-		Rule:        "for every interleaving (operation granularity) of 2 threads x 2 operations and 3 threads x 1 operation over 9 colliding operations on 7 shared fonts: no transition changes the deep hash of the shared *font.Font or of any package-level variable of the repository, and every operation returns what its thread returns alone",
+		Rule:        "for every interleaving (operation granularity) of 2 threads x 2 operations and 3 threads x 1 operation over 9 colliding operations on 8 shared fonts (plus one per character map implementation): no transition changes the deep hash of the shared *font.Font or of any package-level variable of the repository, and every operation returns what its thread returns alone",
 		Assumptions: []string{"operations are atomic steps: interleavings inside an operation are not explored; a write undone before the operation returns is only seen by the free-running race detector pass (sampling)", "the state of sync.Once/sync.Mutex values is not hashed", "package-level variables are listed from the source of every repository package at build time (tools/c17gen); memory only reachable from other packages (x/text, x/image) is not monitored", "the sync.Once harness (concurrent UseSystemFonts) is only exercised by the race detector pass"},
 		Shards:      c17Shards, Run: c17Run, Replay: c17Replay,
 		MemLimit: 8 << 30,
-		Bounds:   map[string]string{"quick": "7 fonts; solo write monitor over all programs of 2 operations (all package-level variables); all pairs of 2-operation programs and all triples of 1-operation programs x all interleavings (the 800 KiB font: pairs of single operations); race pass 20 rounds x 64 goroutines", "thorough": "same exploration for all 7 fonts, plus every 3-operation program against every 2-operation program x 10 interleavings on the 6 small fonts; race pass 200 rounds x 64 goroutines"},
+		Bounds:   map[string]string{"quick": "7 fonts; solo write monitor over all programs of 2 operations (all package-level variables); all pairs of 2-operation programs and all triples of 1-operation programs x all interleavings (the 800 KiB font: pairs of single operations); race pass 20 rounds x 64 goroutines + 16 goroutines x 1500 bitmap glyphs on the two large bitmap fonts (index formats 1, 2, 5)", "thorough": "same exploration for all 7 fonts, plus every 3-operation program against every 2-operation program x 10 interleavings on the 6 small fonts; race pass 200 rounds x 64 goroutines"},
 	})
 }
 
@@ -781,7 +785,67 @@ func c17raceBody(args []string) {
 			wg2.Wait()
 		}
 	}
-	fmt.Printf("race pass done: %d rounds x %d goroutines, %d operations\n", rounds, gor, ops)
+	wrong := c17raceBitmaps()
+	fmt.Printf("race pass done: %d rounds x %d goroutines, %d operations, %d wrong bitmap answers\n", rounds, gor, ops, wrong)
+}
+
+// c17raceBitmaps: the bitmap strikes with index subtables of every format (1, 2 and 5 occur in the corpus only in files too
+// large for the deep-hash monitor): 16 goroutines, each with its own Face on the shared Font, read the glyph data and extents
+// of glyphs spread over the font; every answer is compared with what a single goroutine got before
+func c17raceBitmaps() (wrong int) {
+	for _, n := range []string{"ot/bitmap/IBM3161-bitmap.otb", "ot/collections/msgothic.ttc"} {
+		f := corpus.Get(n)
+		if f == nil {
+			continue
+		}
+		lds := corpus.Loaders(f)
+		if len(lds) == 0 {
+			continue
+		}
+		ft, err := font.NewFont(lds[0])
+		if err != nil {
+			continue
+		}
+		ng := 3000 // both files hold more glyphs than that; a glyph index outside the font is an answer like another
+		var gids []font.GID
+		for i := 0; i < 1500; i++ {
+			gids = append(gids, font.GID((3+i*37)%ng))
+		}
+		sig := func(face *font.Face, g font.GID) string {
+			e, ok := face.GlyphExtents(g)
+			return fmt.Sprint(e, ok, outlineSig(face.GlyphData(g)))
+		}
+		solo := font.NewFace(ft)
+		solo.SetPpem(16, 16)
+		want := make([]string, len(gids))
+		for i, g := range gids {
+			want[i] = sig(solo, g)
+		}
+		var wg sync.WaitGroup
+		var bad int64
+		start := make(chan struct{})
+		for t := 0; t < 16; t++ {
+			wg.Add(1)
+			go func(t int) {
+				defer wg.Done()
+				face := font.NewFace(ft)
+				face.SetPpem(16, 16)
+				<-start
+				for k := range gids {
+					i := (k + t*91) % len(gids)
+					if got := sig(face, gids[i]); got != want[i] {
+						if atomic.AddInt64(&bad, 1) == 1 {
+							fmt.Printf("WRONG BITMAP ANSWER %s glyph %d: %s, alone %s\n", n, gids[i], got, want[i])
+						}
+					}
+				}
+			}(t)
+		}
+		close(start)
+		wg.Wait()
+		wrong += int(bad)
+	}
+	return wrong
 }
 
 func init() { ExtraCommands["c17race"] = c17raceBody }
